@@ -5,7 +5,7 @@ CONSTANTS MaxDepth
 A == <<"a">>
 AB == <<"a", "b">>
 Base(mod, verb) == [pfx |-> "localhost", local |-> TRUE, inface |-> 700, mod |-> mod, verb |-> verb, hasParams |-> TRUE, hasName |-> TRUE, name |-> A,
-                    faceId |-> -1, cost |-> -1, origin |-> -1, flags |-> -1, strat |-> "", stratName |-> "", capacity |-> -1, mtu |-> -1]
+                    faceId |-> -1, cost |-> -1, origin |-> -1, flags |-> -1, strat |-> "", stratName |-> "", capacity |-> -1, mtu |-> -1, flagsMask |-> "none"]
 \* how the command arrives: prefix x scope of the arrival face
 Entries == {<<"localhost", TRUE>>, <<"localhost", FALSE>>, <<"localhop", TRUE>>, <<"localhop", FALSE>>, <<"other", TRUE>>}
 Via(c, e) == [c EXCEPT !.pfx = e[1], !.local = e[2]]
@@ -16,8 +16,10 @@ Fib == { [Base("fib", v) EXCEPT !.name = n, !.faceId = f, !.cost = k, !.hasParam
 Str == { [Base("strategy-choice", v) EXCEPT !.name = n, !.strat = s, !.stratName = IF s = "ok" THEN "multicast" ELSE "", !.hasName = hn] :
            v \in {"set", "unset"}, n \in {<<>>, A}, s \in {"ok", "bare", "unknown", ""}, hn \in BOOLEAN }
 Cs == { [Base("cs", "config") EXCEPT !.hasName = FALSE, !.capacity = k, !.hasParams = hp] : k \in {-1, 5, -2}, hp \in BOOLEAN }
-Fac == { [Base("faces", v) EXCEPT !.hasName = FALSE, !.faceId = f, !.mtu = m] : v \in {"update", "destroy"}, f \in {-1, 800, 9999}, m \in {-1, 0, 100, 1500} }
-Cmds == { Via(c, e) : c \in Rib \cup Fib \cup Str \cup Cs \cup Fac, e \in Entries }
+Fac == { [Base("faces", v) EXCEPT !.hasName = FALSE, !.faceId = f, !.mtu = m, !.flagsMask = fm] :
+           v \in {"update", "destroy"}, f \in {-1, 800, 9999}, m \in {-1, 0, 100, 1500}, fm \in {"none", "both", "flags"} }
+Short == { [Base(m, "") EXCEPT !.hasParams = FALSE, !.hasName = FALSE] : m \in {"", "rib", "faces"} }
+Cmds == { Via(c, e) : c \in Rib \cup Fib \cup Str \cup Cs \cup Fac \cup Short, e \in Entries }
 Init == routes = {} /\ nh = Empty /\ st = (<<>> :> "best-route") /\ cap = 1024 /\ faces = (700 :> 8800 @@ 800 :> 1500) /\ lh \in BOOLEAN
         /\ ev = [c |-> [pfx |-> "none", local |-> FALSE, mod |-> "", verb |-> ""], accepted |-> FALSE]
 Next == \E c \in Cmds : Command(c, Accepts(c))
